@@ -21,59 +21,59 @@ type HostObj struct{ V reflect.Value }
 
 // hostFuncs are stdlib functions executed natively when every argument is concrete.
 var hostFuncs = map[string]interface{}{
-	"regexp.MustCompile":   regexp.MustCompile,
-	"regexp.Compile":       regexp.Compile,
-	"strconv.ParseInt":     strconv.ParseInt,
-	"strconv.ParseUint":    strconv.ParseUint,
-	"strconv.ParseFloat":   strconv.ParseFloat,
-	"strconv.Unquote":      strconv.Unquote,
-	"strconv.Quote":        strconv.Quote,
-	"strconv.Itoa":         strconv.Itoa,
-	"strconv.FormatInt":    strconv.FormatInt,
-	"strconv.FormatFloat":  strconv.FormatFloat,
-	"strconv.FormatBool":   strconv.FormatBool,
-	"strings.ToUpper":      strings.ToUpper,
-	"strings.ToLower":      strings.ToLower,
-	"strings.TrimSpace":    strings.TrimSpace,
-	"strings.Index":        strings.Index,
-	"strings.LastIndex":    strings.LastIndex,
-	"strings.IndexRune":    strings.IndexRune,
-	"strings.IndexByte":    strings.IndexByte,
-	"strings.Count":        strings.Count,
-	"strings.Contains":     strings.Contains,
-	"strings.ContainsAny":  strings.ContainsAny,
-	"strings.HasPrefix":    strings.HasPrefix,
-	"strings.HasSuffix":    strings.HasSuffix,
-	"strings.Replace":      strings.Replace,
-	"strings.Join":         strings.Join,
-	"strings.Split":        strings.Split,
-	"strings.Repeat":       strings.Repeat,
-	"sort.Strings":         sort.Strings,
-	"unicode.IsLetter":     unicode.IsLetter,
-	"unicode.IsDigit":      unicode.IsDigit,
-	"unicode.IsSpace":      unicode.IsSpace,
-	"unicode.IsPrint":      unicode.IsPrint,
-	"unicode.IsUpper":      unicode.IsUpper,
-	"unicode.ToLower":      unicode.ToLower,
-	"unicode.ToUpper":      unicode.ToUpper,
-	"unicode.IsLower":      unicode.IsLower,
-	"strconv.FormatUint":   strconv.FormatUint,
-	"strconv.Atoi":         strconv.Atoi,
-	"strconv.ParseBool":    strconv.ParseBool,
-	"strconv.AppendInt":    strconv.AppendInt,
-	"strings.Title":        strings.Title,
-	"strings.Fields":       strings.Fields,
-	"strings.TrimLeft":     strings.TrimLeft,
-	"strings.TrimRight":    strings.TrimRight,
-	"strings.Trim":         strings.Trim,
-	"strings.TrimPrefix":   strings.TrimPrefix,
-	"strings.TrimSuffix":   strings.TrimSuffix,
-	"strings.EqualFold":    strings.EqualFold,
-	"strings.IndexAny":     strings.IndexAny,
-	"strings.LastIndexByte": strings.LastIndexByte,
-	"strings.ReplaceAll":   strings.ReplaceAll,
-	"strings.SplitN":       strings.SplitN,
-	"strings.ContainsRune": strings.ContainsRune,
+	"regexp.MustCompile":                  regexp.MustCompile,
+	"regexp.Compile":                      regexp.Compile,
+	"strconv.ParseInt":                    strconv.ParseInt,
+	"strconv.ParseUint":                   strconv.ParseUint,
+	"strconv.ParseFloat":                  strconv.ParseFloat,
+	"strconv.Unquote":                     strconv.Unquote,
+	"strconv.Quote":                       strconv.Quote,
+	"strconv.Itoa":                        strconv.Itoa,
+	"strconv.FormatInt":                   strconv.FormatInt,
+	"strconv.FormatFloat":                 strconv.FormatFloat,
+	"strconv.FormatBool":                  strconv.FormatBool,
+	"strings.ToUpper":                     strings.ToUpper,
+	"strings.ToLower":                     strings.ToLower,
+	"strings.TrimSpace":                   strings.TrimSpace,
+	"strings.Index":                       strings.Index,
+	"strings.LastIndex":                   strings.LastIndex,
+	"strings.IndexRune":                   strings.IndexRune,
+	"strings.IndexByte":                   strings.IndexByte,
+	"strings.Count":                       strings.Count,
+	"strings.Contains":                    strings.Contains,
+	"strings.ContainsAny":                 strings.ContainsAny,
+	"strings.HasPrefix":                   strings.HasPrefix,
+	"strings.HasSuffix":                   strings.HasSuffix,
+	"strings.Replace":                     strings.Replace,
+	"strings.Join":                        strings.Join,
+	"strings.Split":                       strings.Split,
+	"strings.Repeat":                      strings.Repeat,
+	"sort.Strings":                        sort.Strings,
+	"unicode.IsLetter":                    unicode.IsLetter,
+	"unicode.IsDigit":                     unicode.IsDigit,
+	"unicode.IsSpace":                     unicode.IsSpace,
+	"unicode.IsPrint":                     unicode.IsPrint,
+	"unicode.IsUpper":                     unicode.IsUpper,
+	"unicode.ToLower":                     unicode.ToLower,
+	"unicode.ToUpper":                     unicode.ToUpper,
+	"unicode.IsLower":                     unicode.IsLower,
+	"strconv.FormatUint":                  strconv.FormatUint,
+	"strconv.Atoi":                        strconv.Atoi,
+	"strconv.ParseBool":                   strconv.ParseBool,
+	"strconv.AppendInt":                   strconv.AppendInt,
+	"strings.Title":                       strings.Title,
+	"strings.Fields":                      strings.Fields,
+	"strings.TrimLeft":                    strings.TrimLeft,
+	"strings.TrimRight":                   strings.TrimRight,
+	"strings.Trim":                        strings.Trim,
+	"strings.TrimPrefix":                  strings.TrimPrefix,
+	"strings.TrimSuffix":                  strings.TrimSuffix,
+	"strings.EqualFold":                   strings.EqualFold,
+	"strings.IndexAny":                    strings.IndexAny,
+	"strings.LastIndexByte":               strings.LastIndexByte,
+	"strings.ReplaceAll":                  strings.ReplaceAll,
+	"strings.SplitN":                      strings.SplitN,
+	"strings.ContainsRune":                strings.ContainsRune,
 	"unicode/utf8.DecodeRuneInString":     utf8.DecodeRuneInString,
 	"unicode/utf8.DecodeRune":             utf8.DecodeRune,
 	"unicode/utf8.DecodeLastRuneInString": utf8.DecodeLastRuneInString,
